@@ -192,7 +192,7 @@ _DKG_RULE = ("full protocol executions with a deterministic in-process scheduler
 
 CONFIG["C07"] = dict(
     lean_modules=["Props.C07"], generators=["C07"], level="proof", rule=_DKG_RULE, trusted_base=BLS_TB,
-    technique="Lean 4 proof (commutation of reorderable deliveries, invariants, congruence up to complaint-table order, schedule independence of End; share-consistency invariant over all behaviours; shape of End results) + differential run of every honest node + agreement predicates on real executions",
+    technique="Lean 4 proof (commutation of reorderable deliveries, invariants, congruence up to complaint-table order, schedule independence of End; agreement between different receivers by a shadow-observer simulation; share-consistency invariant over all behaviours; shape of End results) + differential run of every honest node + agreement predicates on real executions",
     level_text="Theorems for every state: Qual End returns keys only when not disqualified, no complaint unanswered, keys = those of the stored valid vector, share non-zero; the End verdict is a function of (disqualified, complaints, vector, share); Joint End fails beyond t disqualified dealers. "
                "Schedule quantifier (Feldman-VSS-Qual, participant other than the dealer, every crypto record): any two deliveries the network may reorder (different senders, or one sender's private and broadcast channel) commute "
                "(delivery_pair_commutes: both orders disqualified, or the same state up to the order of the complaint table); the invariants used are preserved by every delivery and timeout; the state after a round is independent of the delivery order "
@@ -201,7 +201,10 @@ CONFIG["C07"] = dict(
                "Consistent keys (keys_match_public_data): for EVERY behaviour of the dealer and of the other participants (arbitrary senders, tags, payloads, repetitions) and every delivery order of the three rounds, if End returns keys at a participant other than the dealer "
                "then they are the group key and key shares of the one stored vector and the returned private share passes the share check against that vector (the share is the dealer's first private message or the adopted answer to the node's own complaint, never an unchecked value): "
                "an invariant (SC) preserved by every delivery and both timeouts, with a complaint/answer run as a non-vacuity example. "
-               "Partial: the relation between two different honest receivers of one execution (their private inputs differ) is exercised by randomized and exhaustive short schedules against the model and by the agreement predicates.",
+               "Agreement between two DIFFERENT honest receivers (honest_receivers_agree, Proofs/DkgAgree): in one Feldman-VSS-Qual execution two honest participants that are not the dealer leave End with the same public result (both fail, or the same group key and the same vector of public key shares) "
+               "for every behaviour of the dealer and of the others, every private message and every delivery order, assuming only reliable broadcast with round synchrony (hypothesis Net, once per round, over what each of the two really broadcasts - the handlers' outputs, broadcasts_are_the_complaint); "
+               "proved by simulating each receiver with a passive shadow observer running the same state machine (shadow_simulation) and applying the order-independence theorem to the observer; non-vacuity example with a complaint and an answer. "
+               "Partial: lifting the two-receiver theorem to the n parallel instances of Joint-Feldman (exercised by randomized and exhaustive short schedules against the model and by the agreement predicates).",
     level_note="Lean kernel + correspondence; reliable broadcast and round synchrony are assumptions of the property, implemented by the scheduler",
     assumptions=["reliable broadcast, round-synchronous delivery, at most t Byzantine participants"],
 )
